@@ -1,6 +1,7 @@
 """The translator tie: definitions GENERATED from physt's current source, and the refinement theorems stated about them.
 
-For each translated unit (so far `statistics`: physt/statistics.py -> lean/PhystGen/StatisticsSrc.lean) a run
+For each translated unit (`statistics`: physt/statistics.py -> lean/PhystGen/StatisticsSrc.lean; `config`: physt/config.py ->
+lean/PhystGen/ConfigSrc.lean) a run
 
 1. re-runs tools/py2lean.py on the source of the physt package Python imports NOW (/repo/src/physt, or the worktree on
    PYTHONPATH when a seeded change is tried);
@@ -25,6 +26,7 @@ from . import core
 UNITS = {
     # unit -> (generated module file, theorem files that must check against it, in dependency order)
     "statistics": ("PhystGen/StatisticsSrc.lean", ["PhystGen/C14_Source.lean", "PhystGen/C06_Source.lean"]),
+    "config": ("PhystGen/ConfigSrc.lean", ["PhystGen/C19_Source.lean"]),
 }
 
 
